@@ -522,3 +522,28 @@ mod tests {
         fast_pairing(&g1, &g2);
     }
 }
+
+/// Verification hooks: add-only, compiled only with `--cfg john_yu_sm9_core_verif`.
+/// Thin wrappers that make crate-private items of this module observable from outside.
+#[cfg(john_yu_sm9_core_verif)]
+pub mod verif_hooks {
+    use super::*;
+
+    /// the private small-exponent power used by the final-exponentiation chains
+    pub fn fq12_pow(x: &Fq12, e: u128) -> Fq12 {
+        x.pow(e)
+    }
+    /// [s, 6s+2, a2, a3, 9]: the exponents used by the addition chains
+    pub fn chain_exponents() -> [u128; 5] {
+        [SM9_S, SM9_LOOP_N, SM9_A2, SM9_A3, SM9_NINE]
+    }
+    pub fn loop_count() -> [u8; 65] {
+        SM9_LOOP_COUNT
+    }
+    pub fn miller_g2(q: &G2, p: &G1) -> Fq12 {
+        q.miller_loop(p)
+    }
+    pub fn miller_prepared(q: &G2, p: &G1) -> Fq12 {
+        G2Prepared::from(*q).miller_loop(p)
+    }
+}
